@@ -159,6 +159,25 @@ fn eval(spec: &'static Spec, syms: &[Sym], p: &[usize], s: &[usize], cycles: u32
         refrig.board.borrow().chip().reg_snapshot()
     };
     let snap = rig.board.borrow().chip().reg_snapshot();
+    // setting-derived registers: registers whose value after ordinary use (full update, clear,
+    // display) differs between the driver with these settings and a driver with default settings.
+    // Where wake_up programs such a register at all, it must program the value of the settings in
+    // force ("as construction does for the driver's current settings"), not a fixed one.
+    let mut derived: Vec<(u8, Vec<u8>)> = Vec::new();
+    if !settings.is_empty() {
+        let probes = [frame_op(spec, K::UpdateFrame, 0xC08), Op::new(K::Clear), Op::new(K::Display)];
+        let mut with = Rig::simple(spec);
+        let mut without = Rig::simple(spec);
+        if apply_all_ok(&mut with, &settings).is_ok() && apply_all_ok(&mut with, &probes).is_ok() && apply_all_ok(&mut without, &probes).is_ok() {
+            let a = with.board.borrow().chip().reg_snapshot();
+            let b = without.board.borrow().chip().reg_snapshot();
+            for (k, v) in a.iter() {
+                if !v.is_empty() && b.get(k).map(|w| w != v).unwrap_or(false) {
+                    derived.push((*k, v.clone()));
+                }
+            }
+        }
+    }
     if let Some((op, d)) = diff_snapshots(&snap, &snap_ref) {
         out.push(("wake_up".into(), "register-snapshot-differs".into(), vec![format!("reg={:02X}", op)], d));
     } else {
@@ -171,6 +190,19 @@ fn eval(spec: &'static Spec, syms: &[Sym], p: &[usize], s: &[usize], cycles: u32
                     format!("register {:02X} = [{}] was established by the settings call(s) [{}] and is {} after wake_up", k, hex(v), ops_short(&settings), snap.get(k).map(|x| format!("[{}]", hex(x))).unwrap_or("not written".into())),
                 ));
                 break;
+            }
+        }
+        for (k, v) in &derived {
+            if let Some(got) = snap.get(k) {
+                if got != v && !established.iter().any(|e| e.0 == *k) {
+                    out.push((
+                        "wake_up".into(),
+                        "register-snapshot-differs".into(),
+                        vec![format!("reg={:02X}", k), "setting-derived".into()],
+                        format!("register {:02X} follows the settings call(s) [{}] in ordinary use ([{}] instead of the default-settings value) but wake_up programs [{}]", k, ops_short(&settings), hex(v), hex(got)),
+                    ));
+                    break;
+                }
             }
         }
     }
@@ -197,6 +229,7 @@ fn eval(spec: &'static Spec, syms: &[Sym], p: &[usize], s: &[usize], cycles: u32
         rep.count("reset_pulses_checked", resets_seen);
         rep.count("register_snapshots_compared", 1);
         rep.count("registers_in_snapshot", snap.len() as u64);
+        rep.count("setting_derived_registers_checked", derived.iter().filter(|d| snap.contains_key(&d.0)).count() as u64);
         if !suf.is_empty() {
             rep.count("suffix_memory_effects_compared", 1);
         }
